@@ -11,10 +11,10 @@ CHECKS = {
          "Trusts numpy's stack/tolist and JAX array construction; NaN leaves and structurally different pairs are outside the domain.", "3/C19"),
 }
 CHECKS.update({
- "C01": ("Hypothesis-generated reset keys x mask-relative episode plans (legal/illegal/raw/survive) over finite constructor menus; independent spec-walker oracle cross-checked with spec.validate; jax.eval_shape for shapes/dtypes of all inputs at once",
+ "C01": ("Hypothesis-generated reset keys x mask-relative episode plans (legal/illegal/raw/survive) over finite constructor menus; independent spec-walker oracle cross-checked with spec.validate; jax.eval_shape for shapes/dtypes of all inputs at once; bulk sweeps (10^4 generated episodes per small entry in one vmapped scan, device-side bound predicate, every flagged episode re-judged on the host)",
          "Generated-history exploration of all 23 environments x 2-8 constructor configurations each: every emitted observation/reward/discount from reset to the terminal step (time-limit boundary, invalid move, completion - distribution reported in evidence) is validated against the declared specs by an independent walker; generate_value() membership and acceptance by step are checked per configuration. Shapes and dtypes are decided for all inputs per configuration through abstract evaluation; bounds need search, which is what this level provides.",
          "Finite configuration menus (vf/envs.py); extras and post-LAST values are out of scope; Sokoban uses offline generators.", "3/C01"),
- "C03": ("Hypothesis-generated keys x episode plans continued past LAST; FIRST/MID/LAST protocol monitor over the whole history; coincidence cases (constructive episode replayed with time_limit = its completion step)",
+ "C03": ("Hypothesis-generated keys x episode plans continued past LAST; FIRST/MID/LAST protocol monitor over the whole history; coincidence cases (constructive episode replayed with time_limit = its completion step); bulk sweeps (10^3..10^4 generated episodes per small entry in one vmapped scan, device-side protocol predicate, flagged episodes re-judged on the host)",
          "Generated-history exploration: a monitor checks reset (FIRST, zero reward, unit discount, spec shapes) and every step including up to 4 steps issued after the first LAST (type in {MID, LAST}, discount in [0,1], MID not all-zero, LAST all-zero with the documented LBF truncation exception) on all 23 environments; evidence reports how many histories reached LAST per environment and cause.",
          "LBF LAST at step_count >= time_limit may carry discount one; finite menus.", "3/C03"),
  "C11": ("metamorphic twin env(T) vs env(T+5) on identical key and concrete actions, T in {1,2,3,7,default,None}; survive-biased and purposeful (solver) Hypothesis plans up to mid-sized limits; documented-other-reasons predicate for a LAST before the limit; structural-horizon bound from the reset instance for the 10 untimed envs",
